@@ -140,7 +140,14 @@ def fixed_scenarios():
 # ---------------------------------------------------------------------------
 
 class Case:
-    __slots__ = ("sc", "env_name", "isp", "mode", "i", "v", "exp", "info", "src")
+    __slots__ = ("sc", "env_name", "isp", "mode", "i", "v", "exp", "info", "src", "t")
+
+    def __init__(self):
+        self.t = None
+
+    @property
+    def ty(self):
+        return self.t if self.t is not None else self.sc.roots[self.i]
 
 
 def collect_cases(ctx, scen_values):
@@ -148,6 +155,8 @@ def collect_cases(ctx, scen_values):
     cases = []
     defs = []
     for n, (sc, vals, src, mod) in enumerate(scen_values):
+        if sc.wide:
+            continue
         env_name = f"E{n}"
         defs.append(f"Definition {env_name} : env :=\n  {L.coq_env(sc)}.")
         for (i, v, info) in vals:
@@ -177,19 +186,82 @@ def collect_cases(ctx, scen_values):
                         c = Case()
                         c.sc, c.env_name, c.isp, c.mode, c.i, c.v, c.exp, c.info, c.src = sc, env_name, False, mode, i, d, r, info, src
                         cases.append(c)
+        # sequences of one-shot calls over equal-but-differently-ordered shape types
+        cases.extend(oneshot_history(ctx, sc, mod, src, env_name))
     return cases, "\n".join(defs)
+
+
+def member_perms(rng, ms, limit=4):
+    import itertools
+    perms = [list(p) for p in itertools.permutations(ms)]
+    rng.shuffle(perms)
+    return perms[:limit]
+
+
+def oneshot_history(ctx, sc, mod, src, env_name):
+    """encode(v, T) / decode(d, T) called one after another for shape types that compare (and hash)
+    equal but are (de)serialized differently - typing.Union ignores the order of its members in ==,
+    the codecs try them in order.  Every one-shot result must equal that of a fresh codec object for
+    the very same type object; the results also go to the correspondence (model: codec path)."""
+    import typing
+    from mashumaro.codecs.basic import BasicDecoder, BasicEncoder, decode, encode
+    out = []
+    if sc.dialect is not None:
+        return out                      # the one-shot functions take no dialect
+    for i, t in enumerate(sc.roots):
+        if t[0] != "union":
+            continue
+        perms = member_perms(ctx.rng, t[1])
+        pys = []
+        for pm in perms:
+            try:
+                pys.append(typing.Union[tuple(eval(L.py_ty(m), mod.__dict__) for m in pm)])
+            except Exception as e:
+                raise RuntimeError(f"cannot build union {pm}: {e}")
+        vals = [L.gen_value(ctx.rng, sc, t) for _ in range(2)]
+        objs = [L.build(mod, v) for v in vals]
+        wires = []
+        for o in objs:
+            r = L.call(lambda: BasicEncoder(pys[0]).encode(o))
+            if r[0] == "ok" and L.in_universe(r[1]):
+                wires += [r[1], L.mutate_wire(ctx.rng, r[1])]
+        wobjs = [L.build(mod, w) for w in wires]
+        ctx.hist("oneshot_history", f"perms={len(perms)}")
+        for pm, T in zip(perms, pys):
+            for (isp, xs, asts, one, obj) in ((True, objs, vals, lambda x, T=T: encode(x, T), lambda x, T=T: BasicEncoder(T).encode(x)),
+                                             (False, wobjs, wires, lambda x, T=T: decode(x, T), lambda x, T=T: BasicDecoder(T).decode(x))):
+                for x, ast in zip(xs, asts):
+                    r1 = L.call(lambda: one(x))
+                    r2 = L.call(lambda: obj(x))
+                    ctx.count(("oneshot", sc.sid, i, repr(pm), isp, repr(ast)), n=2)
+                    k1, k2 = res_key(r1), res_key(r2)
+                    if k1 != k2:
+                        ctx.fail(f"one-shot {'encode' if isp else 'decode'}(x, {L.py_ty(('union', pm))}) = {show(k1)} but a fresh "
+                                 f"{'BasicEncoder' if isp else 'BasicDecoder'} for the same type gives {show(k2)} "
+                                 f"(after one-shot calls for {[L.py_ty(('union', q)) for q in perms[:perms.index(pm)]]})",
+                                 {"entry": "oneshot-history", "source": src, "root": i, "perms": perms, "at": perms.index(pm),
+                                  "pack": isp, "input": ast, "values": vals, "wires": wires, "dialect": None,
+                                  "observed": show(k1), "expected": show(k2)},
+                                 {"kind": "oneshot-history"})
+                    if env_name is not None:
+                        c = Case()
+                        c.sc, c.env_name, c.isp, c.mode, c.i, c.v, c.info, c.src = sc, env_name, isp, "oneshot", i, ast, {}, src
+                        c.t = ("union", pm)
+                        c.exp = r1 if r1[0] == "ok" else L.classify_exc(r1[1])
+                        out.append(c)
+    return out
 
 
 def coq_case(c: Case) -> str:
     sc = c.sc
     dl = L.coq_optb(sc.dialect) if c.isp else "None"
     return (f"({c.env_name}, ({'true' if c.isp else 'false'}, {'Mixin' if c.mode == 'mixin' else 'Codec'}, {dl}), "
-            f"{L.coq_ty(sc.roots[c.i])}, {L.coq_val(c.v)}, {L.coq_res(c.exp)})")
+            f"{L.coq_ty(c.ty)}, {L.coq_val(c.v)}, {L.coq_res(c.exp)})")
 
 
 def describe(c: Case) -> dict:
     return {"scenario": c.sc.sid, "direction": "pack" if c.isp else "unpack", "mode": c.mode,
-            "type": L.py_ty(c.sc.roots[c.i]), "value": repr(c.v), "impl": repr(c.exp), "dialect_by_alias": c.sc.dialect}
+            "type": L.py_ty(c.ty), "value": repr(c.v), "impl": repr(c.exp), "dialect_by_alias": c.sc.dialect}
 
 
 # ---------------------------------------------------------------------------
@@ -321,7 +393,7 @@ def oracle_entry_points(ctx, sc, mod, src, cls_name, v, conforming_kind):
     outs = {k: res_key(L.call(f)) for k, f in eps.items()}
     ctx.count(("ep-pack", sc.sid, cls_name, repr(v)), n=len(outs))
     ctx.hist("oracle_kind", "pack:" + conforming_kind)
-    compat = sc.dialect in (None, 'unset') or all(k.by_alias is None or k.by_alias == sc.dialect for k in sc.classes)
+    compat = sc.dialect in (None, 'unset', 'strategy') or all(k.by_alias is None or k.by_alias == sc.dialect for k in sc.classes)
     names = list(outs)
     ref = names[0]
     for k in names[1:]:
@@ -404,7 +476,11 @@ def oracle_compositional(ctx, sc, mod, src, i, vals):
     functions equal the codec objects"""
     from mashumaro.codecs.basic import BasicDecoder, BasicEncoder, decode, encode
     from typing import Dict, List, Optional, Tuple
+    import typing
     T = mod.ROOTS[i]
+    if not (typing.get_args(List[T])[0] is T and typing.get_args(Dict[str, T])[1] is T and typing.get_args(Tuple[T, T])[0] is T):
+        ctx.hist("oracle_kind", "skipped:typing-interned-an-equal-composite")
+        return      # List[T] would be an older, equal-but-differently-ordered object (typing cache)
     Dl = dl_of(sc, mod)
     kw = {"default_dialect": Dl} if Dl else {}
     objs = [L.build(mod, v) for v in vals]
@@ -463,7 +539,40 @@ def oracle_compositional(ctx, sc, mod, src, i, vals):
 # ---- frame: creating codecs / subclasses in between changes nothing ---------------------
 
 CREATIONS = ["codec-same", "codec-list", "codec-dialect", "codec-related", "oneshot", "subclass-mixin",
-             "subclass-plain", "subclass-with-field", "decoder-same", "codec-union"]
+             "subclass-plain", "subclass-with-field", "decoder-same", "codec-union",
+             "codec-strategy-dialect", "codec-format", "codec-format"]
+
+FORMAT_CODECS = [("MessagePackEncoder", "MessagePackDecoder"), ("ORJSONEncoder", "ORJSONDecoder"),
+                 ("JSONEncoder", "JSONDecoder"), ("YAMLEncoder", "YAMLDecoder"), ("TOMLEncoder", "TOMLDecoder")]
+
+
+def frame_namespace():
+    """names available to creation statements"""
+    from typing import Dict, List, Optional, Tuple, Union
+    from mashumaro.codecs.basic import BasicDecoder, BasicEncoder, decode, encode
+    from mashumaro.codecs.json import JSONDecoder, JSONEncoder
+    from mashumaro.codecs.msgpack import MessagePackDecoder, MessagePackEncoder
+    from mashumaro.codecs.orjson import ORJSONDecoder, ORJSONEncoder
+    from mashumaro.codecs.toml import TOMLDecoder, TOMLEncoder
+    from mashumaro.codecs.yaml import YAMLDecoder, YAMLEncoder
+    return dict(locals())
+
+
+def bind_frame_names(sc, mod):
+    """_x_<cls>: an exact instance, _w_<cls>: its wire form - what freshly created codecs are USED on
+    (a codec that is only created never runs its lazily compiled parts)"""
+    from mashumaro.codecs.basic import BasicEncoder
+    for c in sc.classes:
+        o = L.build(mod, default_value(sc, c.name))
+        mod.__dict__[f"_x_{c.name}"] = o
+        r = L.call(lambda: BasicEncoder(getattr(mod, c.name)).encode(o))
+        mod.__dict__[f"_w_{c.name}"] = L.build(mod, r[1]) if r[0] == "ok" and L.in_universe(r[1]) else {}
+
+
+def with_uses(stmt, uses):
+    body = "".join(f"\ntry:\n    {u}\nexcept Exception:\n    pass" for u in uses)
+    return stmt + body
+
 
 
 def creation_src(kind, sc, cls_name, n, rng):
@@ -471,22 +580,47 @@ def creation_src(kind, sc, cls_name, n, rng):
     c = sc.cls(cls_name)
     others = [k.name for k in sc.classes]
     o = rng.choice(others)
+    x, w, xo, wo = f"_x_{cls_name}", f"_w_{cls_name}", f"_x_{o}", f"_w_{o}"
     if kind == "codec-same":
-        return f"_e{n} = BasicEncoder({cls_name}); _d{n} = BasicDecoder({cls_name})"
+        return with_uses(f"_e{n} = BasicEncoder({cls_name}); _d{n} = BasicDecoder({cls_name})",
+                         [f"_e{n}.encode({x})", f"_d{n}.decode({w})"])
     if kind == "codec-list":
-        return f"_e{n} = BasicEncoder(List[{cls_name}]); _d{n} = BasicDecoder(Dict[str, {cls_name}])"
+        return with_uses(f"_e{n} = BasicEncoder(List[{cls_name}]); _d{n} = BasicDecoder(Dict[str, {cls_name}])",
+                         [f"_e{n}.encode([{x}])", f"_d{n}.decode({{'k': {w}}})"])
     if kind == "codec-dialect":
-        return (f"class _Dl{n}(Dialect):\n    serialize_by_alias = {rng.choice([True, False])}\n    omit_none = True\n"
-                f"_e{n} = BasicEncoder({rng.choice(['List[%s]' % cls_name, cls_name, 'Optional[%s]' % cls_name])}, default_dialect=_Dl{n})\n"
-                f"_d{n} = BasicDecoder({cls_name}, default_dialect=_Dl{n})")
+        shape, arg = rng.choice([("List[%s]" % cls_name, f"[{x}]"), (cls_name, x), ("Optional[%s]" % cls_name, x)])
+        return with_uses(f"class _Dl{n}(Dialect):\n    serialize_by_alias = {rng.choice([True, False])}\n    omit_none = True\n"
+                         f"_e{n} = BasicEncoder({shape}, default_dialect=_Dl{n})\n"
+                         f"_d{n} = BasicDecoder({cls_name}, default_dialect=_Dl{n})",
+                         [f"_e{n}.encode({arg})", f"_d{n}.decode({w})"])
+    if kind == "codec-strategy-dialect":
+        # a default dialect that changes how leaf types are rendered
+        strat = rng.choice(["date: {'serialize': date.toordinal, 'deserialize': date.fromordinal}",
+                            "int: {'serialize': str, 'deserialize': int}",
+                            "str: {'serialize': (lambda s: s[::-1]), 'deserialize': (lambda s: s[::-1])}",
+                            "date: {'serialize': date.toordinal, 'deserialize': date.fromordinal}, int: {'serialize': str}"])
+        shape, arg = rng.choice([("List[%s]" % cls_name, f"[{x}]"), (cls_name, x), ("Dict[str, %s]" % cls_name, f"{{'k': {x}}}")])
+        return with_uses(f"class _Dl{n}(Dialect):\n    serialization_strategy = {{{strat}}}\n"
+                         f"_e{n} = BasicEncoder({shape}, default_dialect=_Dl{n})\n"
+                         f"_d{n} = BasicDecoder({cls_name}, default_dialect=_Dl{n})",
+                         [f"_e{n}.encode({arg})", f"_d{n}.decode(BasicEncoder({cls_name}, default_dialect=_Dl{n}).encode({x}))"])
+    if kind == "codec-format":
+        # format codecs always carry a default dialect of their own
+        enc, dec = rng.choice(FORMAT_CODECS)
+        return with_uses(f"_e{n} = {enc}({cls_name}); _d{n} = {dec}({cls_name})",
+                         [f"_d{n}.decode(_e{n}.encode({x}))", f"{enc}(List[{o}]).encode([{xo}])"])
     if kind == "codec-related":
-        return f"_e{n} = BasicEncoder(Tuple[{o}, {cls_name}]); _d{n} = BasicDecoder(Optional[{o}])"
+        return with_uses(f"_e{n} = BasicEncoder(Tuple[{o}, {cls_name}]); _d{n} = BasicDecoder(Optional[{o}])",
+                         [f"_e{n}.encode(({xo}, {x}))", f"_d{n}.decode({wo})"])
     if kind == "codec-union":
-        return f"_e{n} = BasicEncoder(Union[{cls_name}, {o}, int]); _d{n} = BasicDecoder(Union[{o}, {cls_name}])"
+        return with_uses(f"_e{n} = BasicEncoder(Union[{cls_name}, {o}, int]); _d{n} = BasicDecoder(Union[{o}, {cls_name}])",
+                         [f"_e{n}.encode({x})", f"_e{n}.encode({xo})", f"_d{n}.decode({w})"])
     if kind == "oneshot":
-        return f"try:\n    encode(None, Optional[{cls_name}]); decode([], List[{o}])\nexcept Exception:\n    pass"
+        return with_uses("pass", [f"encode(None, Optional[{cls_name}])", f"decode([], List[{o}])", f"encode({x}, {cls_name})",
+                                  f"decode({wo}, {o})"])
     if kind == "decoder-same":
-        return f"_d{n} = BasicDecoder({cls_name}); _dd{n} = BasicDecoder(List[{o}])"
+        return with_uses(f"_d{n} = BasicDecoder({cls_name}); _dd{n} = BasicDecoder(List[{o}])",
+                         [f"_d{n}.decode({w})", f"_dd{n}.decode([{wo}])"])
     cfg = ""
     if sc.dialect is not None:
         cfg = ("\n    class Config(BaseConfig):\n        code_generation_options = [ADD_DIALECT_SUPPORT]\n"
@@ -510,12 +644,23 @@ def oracle_frame(ctx, sc, src, vals_by_root, steps):
     from mashumaro.codecs.basic import BasicDecoder, BasicEncoder, decode, encode
     mod = L.load_module(src, "frame" + str(sc.sid))
     try:
-        from typing import Dict, List, Optional, Tuple, Union
-        mod.__dict__.update(BasicEncoder=BasicEncoder, BasicDecoder=BasicDecoder, encode=encode, decode=decode,
-                            Union=Union)
+        mod.__dict__.update(frame_namespace())
+        bind_frame_names(sc, mod)
         Dl = dl_of(sc, mod)
         kw = {"default_dialect": Dl} if Dl else {}
         probes = []     # (description, thunk, root index, value)
+        for i, vals in vals_by_root.items():
+            t = sc.roots[i]
+            if t[0] == "data" and sc.cls(t[1]).mixin:
+                # the class's OWN methods
+                D = getattr(mod, t[1])
+                for v in vals:
+                    if v[0] != "obj" or v[1] != t[1]:
+                        continue
+                    o = L.build(mod, v)
+                    probes.append((f"own {t[1]}.to_dict()", (lambda o=o: o.to_dict(dialect=Dl) if Dl else o.to_dict()), i, v))
+                    w = mod.__dict__[f"_w_{t[1]}"]
+                    probes.append((f"own {t[1]}.from_dict(wire of the class)", (lambda D=D, w=w: D.from_dict(w, dialect=Dl) if Dl else D.from_dict(w)), i, v))
         for i, vals in vals_by_root.items():
             T = mod.ROOTS[i]
             W = getattr(mod, f"W{i}")
@@ -578,7 +723,7 @@ def fresh_subclass_agrees(ctx, sc, mod, cn, n, Dl, kw, vals_by_root):
     from mashumaro.codecs.basic import BasicEncoder
     S = mod.__dict__.get(f"_S{n}")
     base = getattr(mod, cn)
-    compat = sc.dialect in (None, "unset") or all(k.by_alias is None or k.by_alias == sc.dialect for k in sc.classes)
+    compat = sc.dialect in (None, "unset", "strategy") or all(k.by_alias is None or k.by_alias == sc.dialect for k in sc.classes)
     if S is None or not compat:
         return None
     for i, vals in vals_by_root.items():
@@ -668,22 +813,44 @@ def run(ctx: vlib.Ctx):
                 info = {}
                 flavour = ctx.rng.random()
                 sub_p, junk_p = (0.0, 0.0) if flavour < 0.7 else ((0.3, 0.0) if flavour < 0.88 else (0.1, 0.25))
+                if sc.lazy:
+                    # a lazy stub compiles for self.__class__: what a non-exact instance dispatches to depends on
+                    # the call order (C14 territory) - lazy scenarios keep exact classes
+                    sub_p, junk_p = 0.0, 0.0
                 v = L.gen_value(ctx.rng, sc, t, sub_p, junk_p, info)
                 vals.append((i, v, info))
+        scen.append((sc, vals))
+    # wide scenarios: Config options outside the Coq model (omit_none, omit_default, sort_keys, forbid_extra_keys,
+    # allow_deserialization_not_by_alias, lazy_compilation, code generation flags, defaults, kw_only, strategy
+    # dialects): no correspondence, but every oracle
+    for s in range(ctx.budget(5, 30)):
+        sc = L.gen_scenario(ctx.rng, f"w{s}", wide=True)
+        vals = []
+        for i, t in enumerate(sc.roots):
+            for _ in range(ctx.rng.randint(2, 3)):
+                vals.append((i, L.gen_value(ctx.rng, sc, t), {}))
         scen.append((sc, vals))
 
     loaded = []
     for (sc, vals) in scen:
         src = L.scenario_src(sc)
         mod = L.load_module(src, str(sc.sid))
+        if not module_matches_scenario(sc, mod):
+            ctx.hist("scenario", "dropped:typing-interned-a-reordered-union")
+            L.unload_module(mod)
+            continue
         loaded.append((sc, vals, src, mod))
-        ctx.hist("scenario", "dialect" if sc.dialect is not None else "no-dialect")
+        ctx.hist("scenario", ("wide:" if sc.wide else "") + ("lazy:" if sc.lazy else "") + ("dialect" if sc.dialect is not None else "no-dialect"))
+        if sc.wide:
+            for c in sc.classes:
+                for k in c.extra:
+                    ctx.hist("wide_config_option", k)
 
     # ---------------- (M) correspondence
     cases, defs = collect_cases(ctx, loaded)
     for c in cases:
         ctx.hist("corr_case", ("pack" if c.isp else "unpack") + ":" + c.mode + ":" + c.exp[0] + ("" if c.exp[0] == "ok" else ":" + c.exp[1]))
-        ctx.hist("root_shape", c.sc.roots[c.i][0])
+        ctx.hist("root_shape", c.ty[0])
     coq_cases = [coq_case(c) for c in cases]
     bad, log = vlib.coq_bad_idx("c15_corr", "C15Model", "", defs, coq_cases, OK_FUN, CASE_TYPE, shard=300,
                                 needs=["theories/C15Model.vo"])
@@ -723,7 +890,7 @@ def run(ctx: vlib.Ctx):
         if cm.info.get("junk"):
             continue            # not a conforming value: outside the property (kept for the correspondence only)
         sc = cm.sc
-        compat = sc.dialect in (None, 'unset') or all(q.by_alias is None or q.by_alias == sc.dialect for q in sc.classes)
+        compat = sc.dialect in (None, 'unset', 'strategy') or all(q.by_alias is None or q.by_alias == sc.dialect for q in sc.classes)
         if not compat and not in_dom:
             ctx.hist("agree_domain", "skipped:dialect-priority")
             continue            # documented precedence of call dialect vs default dialect
@@ -749,6 +916,8 @@ def run(ctx: vlib.Ctx):
 
     # ---------------- oracle 2: the whole list of entry points per dataclass value; compositionality
     for (sc, vals, src, mod) in loaded:
+        if sc.wide:
+            oneshot_history(ctx, sc, mod, src, None)
         by_root = {}
         for (i, v, info) in vals:
             if info.get("junk"):
@@ -777,6 +946,10 @@ def run(ctx: vlib.Ctx):
     for (sc, vals, src, mod) in loaded:
         L.unload_module(mod)
 
+    # ---------------- oracle 4: format mixins vs format codecs under user dialects (outside the Coq model)
+    from harness import c15fmt
+    c15fmt.run_format_family(ctx, ctx.budget(30, 200))
+
     # ---------------- a broken tie aims the search at the disagreement
     if corr_bad and not ctx.failures:
         for i in corr_bad[:20]:
@@ -800,6 +973,11 @@ def replay(rep: dict) -> int:
     if rep.get("kind") == "no-failing-input-found":
         print("nothing to replay: the run found no failing input (see not_shown)")
         return 0
+    if entry == "format-family":
+        from harness import c15fmt
+        rc = c15fmt.replay_format(rep)
+        print("REPRODUCED" if rc else "not reproduced")
+        return rc
 
     def tup(x):
         if isinstance(x, list):
@@ -865,7 +1043,27 @@ def replay(rep: dict) -> int:
             for f in ctx.failures:
                 print(f.what)
             rc = 1 if ctx.failures else 0
+        elif entry == "oneshot-history":
+            import typing
+            perms = [[tup(m) if isinstance(m, list) else m for m in pm] for pm in rep["perms"]]
+
+            def ty(m):
+                return tuple(m) if m[0] != "data" else ("data", m[1])
+            perms = [[tuple(m) if not isinstance(m, tuple) else m for m in pm] for pm in rep["perms"]]
+            pys = [typing.Union[tuple(eval(L.py_ty(m), mod.__dict__) for m in pm)] for pm in perms]
+            xs = [L.build(mod, tup(v)) for v in (rep["values"] if rep["pack"] else rep["wires"])]
+            rc = 0
+            for T in pys:
+                for x in xs:
+                    a = res_key(L.call(lambda: encode(x, T) if rep["pack"] else decode(x, T)))
+                    b = res_key(L.call(lambda: (BasicEncoder(T).encode(x) if rep["pack"] else BasicDecoder(T).decode(x))))
+                    if a != b:
+                        print("one-shot:", show(a)); print("object  :", show(b), "for", T)
+                        rc = 1
         elif entry == "frame":
+            sc_ = scenario_from_module(mod, rep)
+            mod.__dict__.update(frame_namespace())
+            bind_frame_names(sc_, mod)
             i = rep["root"]
             v = tup(rep["value"])
             o = L.build(mod, v)
@@ -883,6 +1081,14 @@ def replay(rep: dict) -> int:
                 if "BasicEncoder" in probe:
                     return enc.encode(o)
                 return dec.decode(o)
+            if probe.startswith("own "):
+                wire = mod.__dict__.get("_w_" + probe.split()[1].split(".")[0])
+                D = type(o)
+
+                def run_probe():  # noqa: F811
+                    if "to_dict" in probe:
+                        return o.to_dict(dialect=Dl) if Dl else o.to_dict()
+                    return D.from_dict(wire, dialect=Dl) if Dl else D.from_dict(wire)
             before = res_key(L.call(run_probe))
             for stmt in rep["creations"]:
                 exec(stmt, mod.__dict__)
@@ -910,6 +1116,52 @@ def replay(rep: dict) -> int:
         L.unload_module(mod)
     print("REPRODUCED" if rc else "not reproduced")
     return rc
+
+
+def py_to_ast(tp):
+    """python type object -> type AST (member ORDER as the object really has it)"""
+    import dataclasses as dc
+    import typing
+    if tp is int:
+        return ("int",)
+    if tp is str:
+        return ("str",)
+    if tp is datetime.date:
+        return ("date",)
+    if dc.is_dataclass(tp):
+        return ("data", tp.__name__)
+    o = typing.get_origin(tp)
+    a = typing.get_args(tp)
+    if o is list:
+        return ("list", py_to_ast(a[0]))
+    if o is dict:
+        return ("dict", py_to_ast(a[1]))
+    if o is tuple:
+        return ("tuple", [py_to_ast(x) for x in a])
+    if o is typing.Union:
+        if len(a) == 2 and type(None) in a:
+            return ("opt", py_to_ast([x for x in a if x is not type(None)][0]))
+        return ("union", [py_to_ast(x) for x in a])
+    raise ValueError(tp)
+
+
+def module_matches_scenario(sc, mod) -> bool:
+    """typing interns parametrised generics by EQUAL arguments and Union[A,B] == Union[B,A]: the second of
+    List[Union[A,B]] / List[Union[B,A]] in one process silently is the first.  Such a module does not denote
+    the generated schema (nothing mashumaro can see), so the scenario is dropped."""
+    import typing
+    try:
+        for i, t in enumerate(sc.roots):
+            if py_to_ast(mod.ROOTS[i]) != t:
+                return False
+        for c in sc.classes:
+            hints = typing.get_type_hints(getattr(mod, c.name), mod.__dict__)
+            for (fn, _, ft) in c.fields:
+                if py_to_ast(hints[fn]) != ft:
+                    return False
+    except Exception:
+        return False
+    return True
 
 
 def scenario_from_module(mod, rep):
